@@ -461,7 +461,7 @@ pub fn eval_unit_name(
             },
             BinOpType::Add | BinOpType::Sub => {
                 let (left_unit, left) = eval_unit_name(ctx, &binop.left)?;
-                let (right_unit, _right) = eval_unit_name(ctx, &binop.right)?;
+                let (right_unit, right) = eval_unit_name(ctx, &binop.right)?;
 
                 if left_unit != right_unit {
                     return Err(QueryError::generic(
@@ -470,7 +470,14 @@ pub fn eval_unit_name(
                             .to_string(),
                     ));
                 }
-                Ok((left_unit, left))
+                // The constant shown next to the unit has to be the one
+                // the conversion was actually computed with.
+                let value = if binop.op == BinOpType::Add {
+                    &left + &right
+                } else {
+                    &left - &right
+                };
+                Ok((left_unit, value))
             }
             BinOpType::Frac => {
                 let (left_unit, left) = eval_unit_name(ctx, &binop.left)?;
